@@ -2,6 +2,7 @@ package props
 
 import (
 	"bytes"
+	"compress/gzip"
 	"context"
 	"errors"
 	"fmt"
@@ -227,7 +228,7 @@ func peerError(proto, kind string, rec *httptest.ResponseRecorder) (code, msg st
 				break
 			}
 			if body[0]&0x80 != 0 {
-				block := string(body[5 : 5+n])
+				block := string(toyInflate(rec.Header().Get("Grpc-Encoding"), body[0], body[5:5+n]))
 				st, m := "", ""
 				for _, line := range bytes.Split([]byte(block), []byte("\r\n")) {
 					kv := bytes.SplitN(line, []byte(": "), 2)
@@ -268,7 +269,7 @@ func peerError(proto, kind string, rec *httptest.ResponseRecorder) (code, msg st
 			break
 		}
 		if body[0]&0x02 != 0 {
-			return jsonErr(body[5:5+n], true)
+			return jsonErr(toyInflate(rec.Header().Get("Connect-Content-Encoding"), body[0], body[5:5+n]), true)
 		}
 		body = body[5+n:]
 	}
@@ -294,4 +295,28 @@ func jsonErr(raw []byte, endStream bool) (code, msg string) {
 		return "unparsable", string(raw)
 	}
 	return e.Code, e.Message
+}
+
+// toyInflate undoes the toy compressors on a terminator payload flagged compressed.
+func toyInflate(algo string, flags byte, payload []byte) []byte {
+	if flags&1 == 0 || len(payload) == 0 {
+		return payload
+	}
+	switch algo {
+	case "rle":
+		var out []byte
+		for i := 0; i+1 < len(payload); i += 2 {
+			out = append(out, bytes.Repeat([]byte{payload[i+1]}, int(payload[i]))...)
+		}
+		return out
+	case "tagA", "tagB", "tagC":
+		return payload[1:]
+	case "gzip":
+		if zr, err := gzip.NewReader(bytes.NewReader(payload)); err == nil {
+			var out bytes.Buffer
+			_, _ = out.ReadFrom(zr)
+			return out.Bytes()
+		}
+	}
+	return payload
 }
